@@ -264,7 +264,7 @@ def main(argv):
     witness = None
     if real and not undecided:
         depth = 6 if tier == 'thorough' else 5
-        if cfg.get('witness') == 'storage':
+        if cfg.get('witness') in ('storage', 'misc'):
             depth = 5 if tier == 'thorough' else 4
         if cfg.get('witness'):
             witness = find_witness(cfg['witness'], prop, repo, depth, seed)
